@@ -451,6 +451,35 @@ def hyp_part(n_examples, shard, n_sub):
     return part
 
 
+def prefix_part(shard, seed):
+    """
+    VECTOR arguments whose PREFIX carries one look-alike of one of its characters (other scripts' digits, superscripts, full-width
+    forms ...: whatever isdigit() / int() / \\d / case folding accept), for every position of every prefix and every look-alike in
+    the pinned table: the library's message, never a traceback (in-process; every eighth as a real child)
+    """
+    import random
+    part = runner.Part(PID)
+    rng = random.Random(runner.mix(seed, 1719, shard))
+    conf = gen.confusables()
+    k = 0
+    for flag, prefix, ver in (("-3", "CVSS:3.1/", "3"), (None, "CVSS:3.0/", "3"), ("-4", "CVSS:4.0/", "4"), ("-2", "CVSS:2.0/", "2")):
+        for pos, ch in enumerate(prefix):
+            for alt in conf.get(ch, []) + ["", ch + ch]:
+                k += 1
+                if k % runner.NPROC != shard:
+                    continue
+                body = gen.rng_vector(rng, ver)
+                body = body[len(prefix):] if body.startswith(prefix) else body[body.index("/") + 1:] if body.startswith("CVSS:") else body
+                vec = prefix[:pos] + alt + prefix[pos + 1:] + body
+                argv = ([flag] if flag else []) + (["-j"] if k % 3 == 0 else []) + ["--vector=" + vec]
+                inp = {"argv": argv, "stdin": None}
+                if k % 8 == 0 and cli.can_be_argv(argv):
+                    inp.update(subprocess=True, console_script=bool(k % 16 == 0), env={})
+                part.count(inp, nontrivial=True, classes=("prefix look-alike",))
+                part.check("cli", check_cli, inp)
+    return part
+
+
 def env_part(shard, seed):
     """
     every environment variable the tree under test may consult (gen.tree_env_names: none on a tree that never looks at the
@@ -512,6 +541,8 @@ def run(tier, t0):
         part = runner.hyp_shards("vf.props.c17", "hyp_part", 160000, args=(300,))
     for p in runner.parallel("vf.props.c17", "pty_dialogue_part", [(sh, 4 if tier == "quick" else 32, runner.SEED) for sh in range(runner.NPROC)]):
         part.merge(p)
+    for p in runner.parallel("vf.props.c17", "prefix_part", [(sh, runner.SEED) for sh in range(runner.NPROC)]):
+        part.merge(p)
     for p in runner.parallel("vf.props.c17", "env_part", [(sh, runner.SEED) for sh in range(runner.NPROC)]):
         part.merge(p)
     from ..fuzz import driver
@@ -524,5 +555,5 @@ def run(tier, t0):
     return runner.finish(part, tier, t0, rule,
                          ["coverage-guided: " + fuzz_note, "several version flags: the report of any selected version is accepted (precedence undefined by the statement)",
                           "layout/padding, banners and prompts are not asserted; the missing v2 ratings are a listed known finding; a None v2 score line may be printed or omitted"],
-                         required=("dialogue at a terminal", "clustered-short-flags", "mode:valid", "mode:other-version", "mode:mutant", "mode:text", "mode:argparse-special", "mode:interactive", "mode:interactive-eof",
+                         required=("dialogue at a terminal", "prefix look-alike", "clustered-short-flags", "mode:valid", "mode:other-version", "mode:mutant", "mode:text", "mode:argparse-special", "mode:interactive", "mode:interactive-eof",
                                    "flags=0", "flags=1", "flags=2", "json", "subprocess"))
